@@ -36,6 +36,7 @@ mod tamper;
 mod c16;
 mod constants;
 mod grp;
+mod life;
 mod model;
 mod mon;
 mod sh;
